@@ -282,12 +282,21 @@ def gen_pool(rng, theme="general"):
         rng.shuffle(ep)
         add("optimize-edge-path", optimize={"edge": ep})
         add("optimize-edge-path-list", optimize={"edge": ep}, as_list=True)
+    if n > 1:
+        # one ContractionTree *object* handed over as `optimize` by several calls of the history (with different
+        # options): what the tree compiles and remembers for one call must not leak into the next
+        add("optimize-tree-object", optimize={"tree": [list(p) for p in lin]})
+        add("optimize-tree-object+strip", optimize={"tree": [list(p) for p in lin]}, kwargs={"strip_exponent": True})
+        add("optimize-tree-object+einsum", optimize={"tree": [list(p) for p in lin]}, kwargs={"prefer_einsum": True})
     if n > 1 and rng.random() < 0.5:
         add("optimize-invalid-path", optimize=[[0, n + 3]])   # both cached and uncached calls must fail alike
     add("kw-strip_exponent", kwargs={"strip_exponent": True})
     add("kw-prefer_einsum", kwargs={"prefer_einsum": True})
     add("kw-implementation", kwargs={"implementation": rng.choice(["cotengra", "autoray"])})
     add("kw-sort", kwargs={"sort_contraction_indices": True})
+    add("kw-via-list-2", kwargs={"via_list": 2})
+    add("kw-via-list-3", kwargs={"via_list": 3})
+    add("kw-via-list-5", kwargs={"via_list": 5})
     labs = sorted(net.sizes)
     rel = labs[:]
     rng.shuffle(rel)
@@ -376,10 +385,27 @@ def _materialise(spec):
     if isinstance(opt, list):
         opt = [tuple(list(p)) for p in opt]
         opt = list(opt) if spec["as_list"] is True else tuple(opt)
+    elif isinstance(opt, dict) and "tree" in opt:
+        key = json.dumps([spec["net"], spec["labels"], opt["tree"]], sort_keys=True)
+        if key not in _TREE_OBJS:
+            import cotengra as ctg
+            sizes = {_lab(kind, k): v for k, v in net.sizes.items()}
+            _TREE_OBJS[key] = ctg.ContractionTree.from_path([tuple(t) for t in ins], tuple(out), sizes,
+                                                            path=[tuple(p) for p in opt["tree"]])
+        opt = _TREE_OBJS[key]
     elif isinstance(opt, dict):
         opt = [_lab(kind, i) for i in opt["edge"]]
         opt = list(opt) if spec["as_list"] is True else tuple(opt)
     return net, ins, out, shapes, opt
+
+
+# tree objects shared by the calls of one history (cleared with all other caches: the uncached twin builds a
+# fresh tree for every call)
+_TREE_OBJS = {}
+
+
+def _unused():
+    return None
 
 
 def _size_args(spec, net):
@@ -497,6 +523,11 @@ def run_call(spec, call, cached):
     raw = _arrays(net, call["seed"])
     raw2 = _arrays(net, call["seed"] + 1)
     kw = dict(spec["kwargs"])
+    if "via_list" in kw:
+        # `via=[convert_in, convert_out]` handed over as a fresh *list* (unhashable) on every call; the result is
+        # multiplied by k, so handing back an expression built for another k shows in the value
+        k_ = kw.pop("via_list")
+        kw["via"] = [np.asarray, (lambda kk: (lambda x: np.asarray(x) * kk))(k_)]
     strip = bool(kw.get("strip_exponent"))
     use = bool(call["cache"]) and cached
     api = call["api"]
@@ -558,6 +589,7 @@ def _clear_all_caches():
     cc = sys.modules["cotengra.contract"]
     ci = sys.modules["cotengra.interface"]
     cu = sys.modules["cotengra.utils"]
+    _TREE_OBJS.clear()
     ci._PATH_CACHE.clear()
     ci._CONTRACT_EXPR_CACHE.clear()
     # the dispatch memos keyed on the *type* of `optimize` (interface.py:158, 335) are caches too: the
